@@ -593,6 +593,10 @@ func (w *world) monitors(hist []string, from int, pre model.ShipMessageExchangeS
 			if e.Kind == "setup" {
 				simrt.Fail(w.c04key("setup-after-terminal"), "SetupRemoteDevice called after the connection ended (%s)", evs[endAt].String())
 			}
+			// the report of the connection's end is final as well: no progress state after it
+			if e.Kind == "state" && closedAt >= 0 && i > closedAt && !isTerminal(model.ShipMessageExchangeState(e.N)) {
+				simrt.Fail(w.c04key("progress-after-closed|"+shipx.StateName(model.ShipMessageExchangeState(e.N))), "state %s reported after the end of the connection was reported (event %s)", shipx.StateName(model.ShipMessageExchangeState(e.N)), lastEv)
+			}
 		}
 		// no handshake timer left running; transport closed once no close delay is pending
 		if f, ok := hx.Field(w.C, "handshakeTimerRunning"); ok && f.Bool() {
@@ -735,8 +739,8 @@ func (w *world) monitors(hist []string, from int, pre model.ShipMessageExchangeS
 	}
 }
 
-// c04key: findings of the schedule scenarios in which the user closes the connection while a message of the peer is
-// being handled are keyed as a class of their own (see known_findings.json)
+// c04key: findings of the schedule scenarios in which the user closes the connection while an input (a message of the
+// peer, a decision of the user, a timer expiry) is being handled are keyed as a class of their own (see known_findings.json)
 func (w *world) c04key(k string) string {
 	if w.class != "" {
 		return "C04|" + w.class + "|" + k
@@ -868,6 +872,11 @@ func userRaceBody(ops []string, allow bool) func() {
 		for _, ev := range hist {
 			w.apply(ev, alpha)
 		}
+		for _, op := range ops {
+			if op == "close" {
+				w.class = "input-vs-user-close" // see known_findings.json
+			}
+		}
 		simrt.Mark()
 		for i, op := range ops {
 			op := op
@@ -934,8 +943,8 @@ func inputRaceBody(c cfg, hist []string, first, other string, rest []string) fun
 			simrt.Outcome("no-handshake-timer")
 			return
 		}
-		if first != "T0" && other == "CLOSE" {
-			w.class = "message-vs-user-close"
+		if other == "CLOSE" {
+			w.class = "input-vs-user-close"
 		}
 		simrt.Mark()
 		if first == "T0" {
